@@ -12,12 +12,16 @@ RULE = ("all byte strings of length <= 2 exhaustively (thorough: <= 3 for the pa
         "Non-trivial = distinct input that is not the empty string")
 ASSUMPTIONS = ["stack consumption of the recursive skipper is a runtime aspect: the theorem bounds recursion depth by the input length; the harness runs the deepest nestings that fit 7609 bytes",
                "undefined behaviour that does not trap is outside the model (debug assertions trap the unwrap_unchecked precondition)"]
-TECHNIQUE = "Coq proof: totality (no Panic, no Fuel) of the skipper and UTF-8 helpers for all inputs, decoder totality obligations; differential run incl. exhaustive short inputs and deep nesting, panics caught"
-LEVEL_TEXT = ("Theorems: the model of cbor-smol's skipper terminates on every input within fuel 2*len+2 (recursion and loops bounded by the input length); the "
-              "string helpers never reach a Panic site on valid UTF-8; every Rust panic site on the decode path is an explicit Panic value in the model and "
-              "the differential run (exhaustive short inputs, byte- and structure-level mutation, nesting to the message-size limit, debug build) shows "
-              "model and implementation agree on outcome including the error variant, with no unwind/abort/hang. Stack use and non-trapping UB are named as "
-              "outside the model.")
+TECHNIQUE = "Coq proof: the typed decoder and ctap2::Request::deserialize are total (no Panic site reached, fuel never exhausted, every read consumes input) for every byte string in every feature configuration, by induction on the type fuel with loop lemmas; decodability of the regenerated declarations is a kernel obligation; differential run incl. exhaustive short inputs and deep nesting, panics caught"
+LEVEL_TEXT = ("Theorems (coq/Proofs/TotalP.v, Properties/C04.v): dec_total - for every environment e, fuel k and type t with decodable e k t = true, dec e k t i is Ok or Err "
+              "for EVERY byte string i (never Panic, never Fuel) and a successful read leaves strictly less input; this covers the element loops of Vec, the serde-indexed and "
+              "serde-derive member loops, the skipper on unknown members (terminates within fuel 2*len+2), the cosey key reader, the filters, and the webauthn.rs string helpers "
+              "(slice at split, push_str().unwrap(), unwrap_unchecked in floor_char_boundary are unreachable because the text was validated as UTF-8 first). "
+              "c04_request_deserialize_total / c04_generated_request_deserialize_total lift this to Request::deserialize for all bytes, both at the specification tables and at the "
+              "declarations regenerated from /repo (decodability of every request parameter type in all 32 feature sets is evaluated by the kernel on every run). "
+              "Every Rust panic site on the decode path is an explicit Panic value in the model; the differential run (exhaustive short inputs, byte- and structure-level "
+              "mutation, nesting to the message-size limit, debug build) shows model and implementation agree on the outcome, with no unwind/abort/hang. Stack use and "
+              "non-trapping UB are named as outside the model.")
 feature_sets = default_feature_sets
 
 
